@@ -174,7 +174,7 @@ def gen_config(prop, sub, run_id, n, shape):
         "faults": [],
         "pickle_at_put": rng.random() < 0.2,
     }
-    cfg["max_steps"] = cfg["chaos_steps"] + 12000 + 400 * n
+    cfg["max_steps"] = cfg["chaos_steps"] + 150000 + 400 * n
     if prop == "C13":
         cfg["faults"] = gen_faults(rng, sub, n, batch)
     return cfg
